@@ -348,6 +348,18 @@ Result(lat, n, early0) ==
                          ELSE [path |-> Build(lat, early - 1), idx |-> early - 1, early |-> early])
      ELSE [path |-> Build(lat, n - 1), idx |-> n - 1, early |-> -1]
 
+\* ---- scoring rounds.  rnd[key] = the call (0 = the fresh match, k = the k-th expansion call) in which the score of the
+\* entry stored under key was last written: created, or replaced in place by a better candidate (_update_inner).  An
+\* in-place replacement is always a strict improvement (or stopped -> live), so "written in this call" is exactly
+\* "differs from what the lattice held before the call".  Used to state F-stale (LatticeProps.StaleRnd).
+AllKeys(lat) == UNION { UNION { {Key(lat[c][k][j]) : j \in 1..Len(lat[c][k])} : k \in 1..Len(lat[c]) } : c \in 1..Len(lat) }
+ScoreOf(e) == <<e.lp, e.lpe, e.lpne, e.prev, e.stop, e.len, e.dist>>
+HasKeyS(lat, key) == key[2] + 1 <= Len(lat) /\ HasKey(lat, key)
+Rounds(M, lat2, now, expand) ==
+  [k \in AllKeys(lat2) |->
+     IF expand /\ k \in DOMAIN M.rnd /\ HasKeyS(M.lat, k) /\ ScoreOf(EntryAt(M.lat, k)) = ScoreOf(EntryAt(lat2, k))
+     THEN M.rnd[k] ELSE now]
+
 DoMatch(I, cf, M, n, expand) ==
   LET now == IF expand THEN M.expandNow + 1 ELSE 0
       latX == IF expand /\ n > M.n
@@ -358,13 +370,15 @@ DoMatch(I, cf, M, n, expand) ==
                       ELSE << >>]
               ELSE M.lat
       cs == CreateStart(I, cf, latX, n, now)
-  IN IF cs[2] = 0 THEN [M |-> [lat |-> cs[1], n |-> n, expandNow |-> now, early |-> M.early],
+  IN IF cs[2] = 0 THEN [M |-> [lat |-> cs[1], n |-> n, expandNow |-> now, early |-> M.early,
+                                    rnd |-> Rounds(M, cs[1], now, expand)],
                         R |-> [path |-> << >>, idx |-> 0, early |-> -2]]
      ELSE LET cr == Columns(I, cf, cs[1], 1, n, now, expand)
               res == Result(cr[1], n, cr[2])
-          IN [M |-> [lat |-> cr[1], n |-> n, expandNow |-> now, early |-> res.early], R |-> res]
+          IN [M |-> [lat |-> cr[1], n |-> n, expandNow |-> now, early |-> res.early,
+                     rnd |-> Rounds(M, cr[1], now, expand)], R |-> res]
 
-NewMatcher == [lat |-> << >>, n |-> 0, expandNow |-> 0, early |-> -1]
+NewMatcher == [lat |-> << >>, n |-> 0, expandNow |-> 0, early |-> -1, rnd |-> << >>]
 FreshMatch(I, cf, n) == DoMatch(I, cf, NewMatcher, n, FALSE)
 \* canonical result used by C06 / C07 / C08: <<index, best emitting log-probability in column index>>
 BestEmitting(lat, c) ==
